@@ -145,6 +145,9 @@ class EffectDeriver:
             if tst in ("self.stack",):
                 ps = self._expr(s.test, paths, env, depth)
                 return self._block(s.body, ps, env, depth)
+            # `if not n: return []` — the n == 0 special case of a helper has the same linear effect (0 = -1*0)
+            if isinstance(s.test, ast.UnaryOp) and isinstance(s.test.op, ast.Not) and isinstance(s.test.operand, ast.Name) and env.get(s.test.operand.id) == ARG and not s.orelse:
+                return paths
             ps = self._expr(s.test, paths, env, depth)
             a = self._block(s.body, [p.copy() for p in ps], env, depth)
             b = self._block(s.orelse, [p.copy() for p in ps], env, depth) if s.orelse else [p.copy() for p in ps]
@@ -212,8 +215,23 @@ class EffectDeriver:
             return self._expr(s.value, ps, env, depth)
         if isinstance(s, ast.Delete):
             for t in s.targets:
-                if "self.stack" in norm(t) and not all(p.terminal for p in ps):
-                    # truncation is only understood after the frame was popped (RETURN*) or inside _throw
+                if "self.stack" not in norm(t):
+                    continue
+                # `del self.stack[-n:]` removes exactly n operands (n = the instruction's operand count)
+                if isinstance(t, ast.Subscript) and norm(t.value) == "self.stack" and isinstance(t.slice, ast.Slice) and t.slice.upper is None and t.slice.step is None and isinstance(t.slice.lower, ast.UnaryOp) and isinstance(t.slice.lower.op, ast.USub):
+                    cnt = t.slice.lower.operand
+                    if isinstance(cnt, ast.Name) and env.get(cnt.id) == ARG:
+                        for p in ps:
+                            p.a -= 1
+                            p.last = None
+                        continue
+                    if isinstance(cnt, ast.Constant) and isinstance(cnt.value, int):
+                        for p in ps:
+                            p.c -= cnt.value
+                            p.last = None
+                        continue
+                if not all(p.terminal for p in ps):
+                    # absolute truncation is only understood after the frame was popped (RETURN*) or inside _throw
                     raise AnalysisError(f"del on the operand stack at line {s.lineno} is not modelled")
             return ps
         raise AnalysisError(f"unsupported statement in opcode handler at line {s.lineno}: {type(s).__name__}")
